@@ -299,6 +299,11 @@ def run(ctx):  # noqa: C901, PLR0912, PLR0915
            'tabs (legal for an xs:list) is accepted but matches no report', fi=ab)
     from .c09 import gathers_isolate_subscribers
     gathers_isolate_subscribers(ctx, 'C08.R2')
+    from . import common
+    # a log call that raises while notifications go out skips the remaining subscribers / corrupts the error count
+    common.log_templates_are_constant(ctx, 'C08.R2', ['sdc11073.provider.subscriptionmgr', 'sdc11073.pysoap.soapclient',
+                                                      'sdc11073.provider.dpwshostedservice', 'sdc11073.consumer.subscription'])
+    common.no_mutation_while_iterating(ctx, 'C08.R1', ['sdc11073.provider.subscriptionmgr', 'sdc11073.pysoap.soapclientpool'])
     duration_fraction_is_decimal(ctx, 'C08.R3')
     # ------------------------------------------------------------------ R5
     for q in (f'{SB}.SubscriptionsManagerBase._end_all_subscriptions',
@@ -430,6 +435,22 @@ _B = 'src/sdc11073/provider/subscriptionmgr_base.py'
 _S = 'src/sdc11073/provider/subscriptionmgr.py'
 _A = 'src/sdc11073/provider/subscriptionmgr_async.py'
 SEEDS = [
+    seed('housekeeping removes from the table it iterates', 'C08.R1',
+         (_B, """                obsolete_subscriptions = [
+                    s
+                    for s in self._subscriptions.objects
+                    if not s.is_valid or (s.unsubscribed_at is not None and now > s.unsubscribed_at + 1)
+                ]
+
+                for obsolete_subscription in obsolete_subscriptions:
+                    if not obsolete_subscription.is_closed():
+""", """                for obsolete_subscription in self._subscriptions.objects:
+                    if obsolete_subscription.is_valid and not (obsolete_subscription.unsubscribed_at is not None and now > obsolete_subscription.unsubscribed_at + 1):
+                        continue
+                    if not obsolete_subscription.is_closed():
+""")),
+    seed('pool keeps the entry of a closed client', 'C08.R5',
+         ('src/sdc11073/pysoap/soapclientpool.py', "                self._soap_clients.pop(netloc)\n", "                if entry.soap_client is not None:\n                    self._soap_clients.pop(netloc)\n")),
     seed('sync sender: unsubscribed check dropped', 'C08.R1',
          (_S, "        if not self.is_valid or self.unsubscribed_at is not None:", "        if not self.is_valid:")),
     seed('async sender: liveness check dropped', 'C08.R1',
